@@ -334,7 +334,14 @@ def rule_own_fields(ctx: Ctx, rep: Report) -> None:
     rule_own_fields_forwarded(ctx, rep, "C07.own_fields", ('btclib.bip32.bip32',), 3)
 
 
+def rule_params_forwarded_(ctx: Ctx, rep: Report) -> None:
+    """C07.params_forwarded: a parameter is handed on to callees that have a parameter of the same name (see sigcommon.rule_params_forwarded)."""
+    from rules.sigcommon import rule_params_forwarded
+    rule_params_forwarded(ctx, rep, "C07.params_forwarded", ('btclib.bip32',), 40)
+
+
 RULES = [
+    ("C07.params_forwarded", rule_params_forwarded_),
     ("C07.own_fields", rule_own_fields),
     ("C07.hardened_pub", rule_hardened_pub),
     ("C07.invalid_child", rule_invalid_child),
